@@ -152,6 +152,10 @@ miss or alarm, or a recurring family; every batch was re-run afterwards):
   address inserts is reported (`C05.set_socket.rekey`, `C08.set_socket.effect`). For the built-in key types nothing changes,
   but the properties speak of every key type: a scheme whose entry name is one of `ip`, `ip6`, `tcp`, .. would have its key
   overwritten -- the same mechanism as defect D5 in `remove_insert`. It is not in `seeded/harmless/`.
+* *by the target property*: after round 19 one change in seven was reported only by a neighbouring property's check (123 of
+  143 by the property the author aimed at). The clauses concerned now also carry the label of the property they are the
+  reason for (11.1 item 4), and C13's exit 0 on `b3_C13_1` became UNDECIDED (a failed assertion of another property in the same
+  function).
 * the campaign itself runs six checks at a time: pruning of the result cache deleted an entry another run was about to read
   (one run ended with exit 2 "internal error of the checker") -> entries younger than two hours are never pruned.
 
